@@ -155,5 +155,5 @@ int main(int argc, char **argv) {
     L = {fam_graphs(2, 2), fam_graphs(3, 1), fam_graphs(3, 2)};
     if (T) { L.push_back(fam_graphs(4, 0)); L.push_back(fam_graphs(4, 1)); }
   } else { fprintf(stderr, "ERROR: unknown property %s\n", args.prop.c_str()); return 2; }
-  return drv::run<Case>(args, L, o);
+  return drv::run<Case>(args, L, o, {}, 3);  // a scan takes microseconds; 3 s (15 s when re-run alone) means it does not terminate
 }
